@@ -21,7 +21,7 @@ ASSUME = ["tskit's table sort / tree-sequence validation (the transformed copy i
 
 def transform(rng, d):
     """renumber and/or re-time; returns (new dict, old->new id map, description)"""
-    what = rng.choice(["renumber", "retime-monotone", "retime-free", "both", "both"])
+    what = rng.choice(["renumber", "renumber", "retime-monotone", "retime-free", "both", "both", "both"])
     m = {u: u for u in range(len(d["nodes_time"]))}
     out = d
     if what in ("renumber", "both"):
